@@ -42,4 +42,13 @@ CHECKS["C16"] = {
             "cycle refusal is checked on the implementation only (the model covers acyclic values).",
     "design_ref": "DESIGN.md §4 C16",
 }
+CHECKS["C10"] = {
+    "technique": "Lean 4 proof over M-RegAlloc (allocator invariant, window soundness for every size, statement neutrality, constant-pool index soundness) + op-by-op correspondence with the real BytecodeBuilder + self-checking size sweeps",
+    "text": "alloc_fresh/reserve_fresh/window_sound (a register or window handed out is never live and lies inside the 8-bit file, or the request is refused - for every n), stmt_neutral (any properly nested op sequence "
+            "between save and restore leaves cursor and save stack unchanged: no cumulative register limit), addDedup_sound/index_stable (16-bit constant indices never wrap, stay valid) are Lean theorems over all states/op lists. "
+            "The model is compared op by op with the real allocator and constant pool (incl. >65535 constants); whole-program size sweeps (16 construct families, n = 0..600 dense at 2^7/2^8, cumulative families to 3000+, "
+            "constant families around 2^16) must give the closed-form value or an explicit limit error, with a canary variable.",
+    "note": "Read from the source, not proved: that the compiler requests windows only through reserve_registers_for and brackets every statement with save/restore. Known finding: the constant-pool limit is per chunk (cumulative over statements).",
+    "design_ref": "DESIGN.md §4 C10",
+}
 NOT_YET = {}
